@@ -269,7 +269,11 @@ impl Expr {
                         _ => bail!("invalid left operand for {op} (cannot apply to {})", lhs.for_type(flags)?),
                     }
                 } else {
-                    if let (Op::Unwrap, Expr::Value(Value::Ident(ident))) = (op, lhs.as_ref()) {
+                    if let Op::Unwrap = op {
+                        let Expr::Value(Value::Ident(ident)) = lhs.as_ref() else {
+                            bail!("the left side of {op} must be a variable name")
+                        };
+
                         if ident.is_const() {
                             bail!(
                                 "cannot reassign using {op} to {}, which is const",
